@@ -124,9 +124,16 @@ class Config:
             for t in range(1, T):
                 self.Ns[t] = int(rng.integers(max(3, min(N, 4)), N + 1))
                 self.frames[t] = self.frames[t][: self.Ns[t]]
+        if r.get("grow") and not self.exact and T > 1:
+            # the first frame is the small one: later frames hold particles frame 0 never had
+            n0 = max(3, min(N, 4), K, N // 2)
+            self.Ns[0] = n0
+            self.frames[0] = self.frames[0][:n0]
         self.Nmin = min(self.Ns)
         types = np.concatenate([np.arange(1, K + 1), rng.integers(1, K + 1, size=max(0, N - K))])[:N]
         self.types = rng.permutation(types).astype(int)
+        if r.get("grow") and not self.exact and T > 1:
+            self.types[:K] = np.arange(1, K + 1)      # the small first frame still holds every species
         # per-frame species: the same for every frame, or reassigned from frame to frame
         # (reactive / semi-grand-canonical runs); every species keeps at least one particle
         # among the particles every frame has
@@ -136,6 +143,11 @@ class Config:
                 head = rng.permutation(np.arange(1, K + 1))
                 tail = rng.integers(1, K + 1, size=N - K)
                 self.types_f[t] = np.concatenate([head, tail]).astype(int)
+                if r.get("vanish") and K > 1:
+                    # one species is absent from this later frame (it is there in frame 0)
+                    gone = int(rng.integers(1, K + 1))
+                    keep = 1 + (gone % K)
+                    self.types_f[t] = np.where(self.types_f[t] == gone, keep, self.types_f[t])
         self.Lmin = float(min(np.min(np.abs(np.diag(x))) for x in self.hs))
         # where the system sits and how it is stored: far from the origin (1e2 ... 1e8 box
         # lengths away) and / or in single precision (what the HOOMD converters hand over)
